@@ -29,7 +29,7 @@ def order_gens(syms, prefer=None):
 
 
 class NF:
-    def __init__(self, zero, residual, ring, seconds=0.0):
+    def __init__(self, zero, residual, ring):
         self.zero, self.residual, self.ring = zero, residual, ring
 
 
